@@ -76,6 +76,8 @@ def eval_monad_expand_where(a):
 
     """
     arr = a if is_list(a) else [a]
+    if len(arr) == 0:
+        return bknp.arange(0)
     return bknp.repeat(bknp.arange(len(arr)), arr)
 
 
